@@ -39,7 +39,7 @@ def run(ctx: Ctx) -> None:
                 'non-trivial = an unload of an imported module followed by a transpile of an importer; distinct = distinct (program, history)')
     ctx.prove([])
     rnd = ctx.rnd
-    nh = ctx.n(10, 400) * (3 if ctx.broken else 1)
+    nh = ctx.n(8, 400) * (3 if ctx.broken else 1)
     cases, raw, all_srcs = [], [], []
     scratch = scratch_cwd()
     for hidx in range(nh):
@@ -116,6 +116,62 @@ def run(ctx: Ctx) -> None:
                         except Errors.Error as e:
                             ctx.violation('history-breaks-transpile:' + type(e).__name__, 'transpiling a module fails inside a session history although a fresh session succeeds (%s)' % type(e).__name__,
                                           dict(sources=srcs, history=h3, impl_result=str(e)[:300]))
+        # ---- directed histories: unload the root of an import chain of depth >= 2, then transpile the far end ----
+        if hidx < ctx.n(6, 400):
+            done = 0
+            for c in range(len(names)):
+                for b in imps[c]:
+                    for a in imps[b]:
+                        if done >= 2 or a in imps[c]:
+                            continue
+                        done += 1
+                        s4 = tsession.Session(srcs)
+                        s4.load(names[c])
+                        s4.unload(names[a])
+                        ctx.evaluations += 1
+                        ctx.count('directed:chain')
+                        h4 = [('load', c), ('unload', a), ('transpile', c)]
+                        try:
+                            text = s4.transpile(names[c])
+                            if text != fresh[names[c]]:
+                                ctx.violation('history-dependent-output', 'transpiling a module inside a session history gives a different text than a fresh session', dict(sources=srcs, history=h4, oracle_result=fresh[names[c]][-300:], impl_result=text[-300:]))
+                        except Errors.Error as e:
+                            ctx.violation('history-breaks-transpile:' + type(e).__name__, 'transpiling a module fails inside a session history although a fresh session succeeds (%s)' % type(e).__name__,
+                                          dict(sources=srcs, history=h4, impl_result=str(e)[:300]))
+        # ---- the same modules as files, with the on-disk caches in use: a second load inside one session ----
+        if hidx < ctx.n(3, 100):
+            import shutil
+            pool_dir = os.path.join(scratch, 'c04disk_%d' % hidx)
+            shutil.rmtree(pool_dir, ignore_errors=True)
+            for n_, src_ in srcs.items():
+                path_ = os.path.join(pool_dir, n_.replace('.', '/') + '.py')
+                os.makedirs(os.path.dirname(path_), exist_ok=True)
+                open(os.path.join(os.path.dirname(path_), '__init__.py'), 'a').close()
+                with open(path_, 'w') as fh:
+                    fh.write(src_)
+            old_cwd = os.getcwd()
+            os.chdir(pool_dir)
+            try:
+                s5 = tsession.Session({})
+                target = names[-1]
+                for round_ in (1, 2):
+                    ctx.evaluations += 1
+                    ctx.count('directed:disk-reload')
+                    try:
+                        text = s5.transpile(target)
+                    except Errors.Error as e:
+                        text = 'ERROR ' + type(e).__name__
+                    want = re.sub(r'"hash":"[0-9a-f]+"', '"hash":"dummy"', fresh[target])
+                    got5 = re.sub(r'"hash":"[0-9a-f]+"', '"hash":"dummy"', text)
+                    if got5 != want:
+                        ctx.violation('history-dependent-output', 'a file-backed module transpiled a second time in one session (tables restored from the cache) differs from a fresh in-memory session',
+                                      dict(sources=srcs, history=[('disk-transpile', len(names) - 1)] * round_, oracle_result=want[-300:], impl_result=got5[-300:]))
+                        break
+                    for n_ in reversed(names):
+                        s5.unload(n_)
+            finally:
+                os.chdir(old_cwd)
+                shutil.rmtree(pool_dir, ignore_errors=True)
         # ---- isolation: loading another module changes no symbol / node class of an untouched one ----
         s2 = tsession.Session(srcs)
         a = names[0]
